@@ -218,6 +218,11 @@ func (its *WiredDatatype) updateStateOfDatatype(
 
 		its.state = model.StateOfDatatype_SUBSCRIBED
 		its.id = ppp.DUID
+		if ppp.GetPushPullPackOption().HasSubscribeBit() {
+			// the rollback point has to carry the DUID and the operation ID that the subscription assigned;
+			// otherwise the first failed transaction would restore the ones this datatype had before subscribing.
+			its.ResetTransaction()
+		}
 
 		err = its.wire.OnChangeDatatypeState(its.Datatype, its.state)
 	case model.StateOfDatatype_SUBSCRIBED:
